@@ -313,6 +313,9 @@ def index_lambda_to_high_level_op(expr: IndexLambda) -> HighLevelOp:
         elif isinstance(inner_expr,
                         p.Sum | p.Product | p.LogicalAnd | p.LogicalOr | p.BitwiseOr
                             | p.BitwiseAnd | p.BitwiseXor):
+            if len(inner_expr.children) != 2:
+                # e.g. a flat a + b + c: not one binary operation
+                raise UnknownIndexLambdaExpr
             children = inner_expr.children
             bin_op = _SIMPLE_PYMBOLIC_BINARY_OP_MAP[type(inner_expr)]
         elif isinstance(inner_expr, p.Comparison):
